@@ -51,6 +51,35 @@ impl FilterPolicy for FirstBytePolicy {
     }
 }
 
+/// lying policies whose names are a proper prefix / an extension of the bloom policy's name
+pub struct RejectAllPrefixPolicy;
+impl FilterPolicy for RejectAllPrefixPolicy {
+    fn name(&self) -> &'static str {
+        "leveldb.BuiltinBloomFilter"
+    }
+    fn create_filter(&self, _keys: &[u8], offs: &[usize]) -> Vec<u8> {
+        let mut v = vec![0u8; offs.len() + 8];
+        v.push(1);
+        v
+    }
+    fn key_may_match(&self, _key: &[u8], _f: &[u8]) -> bool {
+        false
+    }
+}
+pub struct RejectAllExtPolicy;
+impl FilterPolicy for RejectAllExtPolicy {
+    fn name(&self) -> &'static str {
+        "leveldb.BuiltinBloomFilter2x"
+    }
+    fn create_filter(&self, _keys: &[u8], offs: &[usize]) -> Vec<u8> {
+        let mut v = vec![0u8; offs.len() + 8];
+        v.push(1);
+        v
+    }
+    fn key_may_match(&self, _key: &[u8], _f: &[u8]) -> bool {
+        false
+    }
+}
 /// a policy under a foreign name whose filters reject everything
 pub struct RejectAllPolicy;
 impl FilterPolicy for RejectAllPolicy {
